@@ -2223,6 +2223,107 @@ void vf_slice_9()
 #endif
 
 #if VF_IN_SLICE(10)
+namespace
+{
+// ---- rectangular shapes: identity (ones exactly where row == column), null, fill, init, transpose, products between
+// compatible shapes, matrix * vector, comparison - against plain arrays.  Tall, wide, one column, one row.
+template <std::size_t R, std::size_t C>
+pm<R, C> p_rect_id()
+{
+  pm<R, C> r{};
+  for (std::size_t i = 0; i < R && i < C; ++i)
+    r[i][i] = 1;
+  return r;
+}
+template <class T, size_type R, size_type C>
+void rect_shape(vf::rng &g, std::uint64_t i)
+{
+  namespace mx = fm::matrix;
+  using S = mx::static_<T, R, C>;
+  using St = mx::static_<T, C, R>;
+  std::string const inst = std::string(tn<T>()) + "," + std::to_string(R) + "x" + std::to_string(C);
+  pm<R, C> pa{}, pb{};
+  for (auto &r : pa)
+    for (auto &x : r)
+      x = g.range(-9, 9);
+  for (auto &r : pb)
+    for (auto &x : r)
+      x = g.chance(1, 4) ? g.range(-9, 9) : 0;
+  pv<C> pu{};
+  for (auto &x : pu)
+    x = g.range(-9, 9);
+  if (!vf::begin_case("i=%llu shape=%llux%llu A=%s B=%s u=%s", static_cast<unsigned long long>(i), static_cast<unsigned long long>(R),
+                      static_cast<unsigned long long>(C), show(pa).c_str(), show(pb).c_str(), show(pu).c_str()))
+    return;
+  vf::sample_case(1);
+  vf::note_distinct(hash_pm(pa, hash_pm(pb, vf::hash_str(inst))));
+  ctx c{inst, [&] { return "A=" + show(pa) + " B=" + show(pb) + " u=" + show(pu); }};
+  mat_op<T, R, C> oa(pa), ob(pb);
+  S const A = oa.st(), B = ob.st();
+  VF_COUNT("rect/cases");
+  if (R >= C + 2)
+    VF_COUNT("rect/tall-by-two-or-more");
+  want_m(c, "matrix::identity", mx::identity<S>(), p_rect_id<R, C>(), "rectangular");
+  want_m(c, "matrix::identity", mx::identity<St>(), p_rect_id<C, R>(), "rectangular");
+  want_m(c, "matrix::init", mx::init<S>([&pa]<size_type Rw, size_type Cl>(mx::index<Rw, Cl>) { return static_cast<T>(pa[Rw][Cl]); }), pa, "rectangular");
+  want_m(c, "matrix::transpose", mx::transpose(A), p_tr(pa), "rectangular");
+  ident_m(c, "law:(A^T)^T=A", mx::transpose(mx::transpose(A)), A);
+  ident_m(c, "law:identity^T=identity", mx::transpose(mx::identity<S>()), mx::identity<St>());
+  want_m(c, "matrix::operator+", A + B, p_add(pa, pb), "rectangular");
+  want_m(c, "matrix::operator-", A - B, p_sub(pa, pb), "rectangular");
+  want_m(c, "matrix::operator*(scalar)", static_cast<T>(3) * A, p_smul(3, pa), "rectangular");
+  // (RxC) * (CxR) and (CxR) * (RxC)
+  auto const tB = mx::transpose(B);
+  want_m(c, "matrix::operator*", A * tB, p_mul(pa, p_tr(pb)), "rectangular");
+  want_m(c, "matrix::operator*", tB * A, p_mul(p_tr(pb), pa), "rectangular");
+  // A * identity(CxC) = A, identity(RxR) * A = A, A * identity(CxR) selects / pads columns
+  want_m(c, "matrix::operator*", A * mx::identity<mx::static_<T, C, C>>(), pa, "times-square-identity");
+  want_m(c, "matrix::operator*", mx::identity<mx::static_<T, R, R>>() * A, pa, "times-square-identity");
+  want_m(c, "matrix::operator*", A * mx::identity<St>(), p_mul(pa, p_rect_id<C, R>()), "times-rectangular-identity");
+  // matrix * vector
+  {
+    vec_op<T, C> ou(pu);
+    pv<R> want{};
+    for (std::size_t r = 0; r < R; ++r)
+      for (std::size_t k = 0; k < C; ++k)
+        want[r] += pa[r][k] * pu[k];
+    want_v(c, "matrix::operator*(vector)", A * ou.st(), want, "rectangular");
+  }
+  want_b(c, "matrix::operator==", A == B, pa == pb, "rectangular");
+  want_b(c, "matrix::operator!=", A != B, pa != pb, "rectangular");
+  {
+    S const copy(A);
+    want_b(c, "matrix::operator==", A == copy, true, "rectangular-copy");
+  }
+}
+template <class T>
+void rect_shapes()
+{
+  std::string const e = std::string("matrix<") + tn<T>() + ",rectangular>";
+  if (!vf::entry_enabled(e))
+    return;
+  vf::set_entry(e);
+  std::uint64_t const n = vf::tier<std::uint64_t>(400, 40000);
+  for (std::uint64_t i = 0; i < n; ++i)
+  {
+    if (!vf::mine(i))
+      continue;
+    vf::rng g(vf::seed_for(e, i));
+    switch (i % 9)
+    {
+    case 0: rect_shape<T, 1, 3>(g, i); break;
+    case 1: rect_shape<T, 3, 1>(g, i); break;
+    case 2: rect_shape<T, 2, 3>(g, i); break;
+    case 3: rect_shape<T, 3, 2>(g, i); break;
+    case 4: rect_shape<T, 4, 2>(g, i); break;
+    case 5: rect_shape<T, 2, 4>(g, i); break;
+    case 6: rect_shape<T, 4, 1>(g, i); break;
+    case 7: rect_shape<T, 1, 4>(g, i); break;
+    default: rect_shape<T, 5, 2>(g, i); break;
+    }
+  }
+}
+}
 // a scalar whose move is not a copy (common/heavy.hpp): a moved-from operand reads as 7777
 void vf_slice_10()
 {
@@ -2230,6 +2331,8 @@ void vf_slice_10()
   random_matrices<vf::heavy, 3, true, true>("random");
   random_vectors<vec_kind, vf::heavy, 3>();
   random_vectors<dim_kind, vf::heavy, 2>();
+  rect_shapes<int>();
+  rect_shapes<long>();
   vf::count("heavy/constructed", vf::heavy_stats().constructed);
   vf::count("heavy/moved", vf::heavy_stats().moved);
   vf::count("heavy/moved-from-reads(observed)", vf::heavy_stats().moved_from_reads);
@@ -2267,7 +2370,7 @@ void body()
         "storage/dim/view,view", "storage/dim/static,view", "storage/dim/view,static", "vector/dot/nonzero",
         "vector/cross/nonzero", "vector/cross/zero", "cmp/equal", "cmp/less", "cmp/greater",
         "cmp/differ-in-last-component-only", "cmp/equal-prefix-then-different",
-        "cmp/later-component-ordered-the-other-way", "storage/vector/raw_view", "observed/calls"})
+        "cmp/later-component-ordered-the-other-way", "storage/vector/raw_view", "observed/calls", "rect/tall-by-two-or-more"})
     vf::require_bucket(b);
   vf_slice_0();
   vf_slice_1();
